@@ -349,8 +349,10 @@ def preempt_runs(drv, sc, rng, n, pid, full):
     names = [nm for nm, _ in calls(P.TxnGen(random.Random(0)))]
     # dry runs: the gate sequence of every call alone
     dry = []
-    for initn in (2, 3, 4):
-        for na in names:
+    # five tables: a compaction of a middle range, with tables above AND below it that the other handle can compact or replace
+    five_a, five_b = ["c12", "c23"], ["c01", "c12", "c23", "compactall", "add", "autoadd", "reopen", "clean"]
+    for initn in (2, 3, 4, 5):
+        for na in (names if initn < 5 else five_a):
             tg = P.TxnGen(random.Random(initn * 100 + 1))
             init = [tg.add() for _ in range(initn)]
             dry.append({"id": "d%d-%s" % (initn, na), "hash": "sha1", "nh": 1, "init": init, "preopen": True, "progs": {"1": [dict(calls(tg))[na]()]},
@@ -380,10 +382,10 @@ def preempt_runs(drv, sc, rng, n, pid, full):
         points[d["id"][1:]] = (sorted(k for k in ks if k <= len(gates) + 1), len(gates))
     runs = []
     i = 0
-    for initn in (2, 3, 4):
-        for na in names:
+    for initn in (2, 3, 4, 5):
+        for na in (names if initn < 5 else five_a):
             sel, ng = points["%d-%s" % (initn, na)]
-            for nb in names:
+            for nb in (names if initn < 5 else five_b):
                 for k in (range(2, ng + 2) if full else sel):
                     tg = P.TxnGen(random.Random(i * 17 + 3))
                     init = [tg.add() for _ in range(initn)]
@@ -395,7 +397,11 @@ def preempt_runs(drv, sc, rng, n, pid, full):
                     i += 1
     total = len(runs)
     if n < total:
-        runs = random.Random(rng.random()).sample(runs, n)
+        # compaction against compaction, and everything on five tables, always; the rest sampled
+        comp = {"c01", "c12", "c23", "compactall", "autoadd"}
+        first = [r for r in runs if r["id"].startswith("p5-") or (r["id"].split("-")[1] in comp and r["id"].split("-")[2] in comp)]
+        rest = [r for r in runs if r not in first]
+        runs = first + random.Random(rng.random()).sample(rest, max(0, min(len(rest), n - len(first))))
     return runs, total
 
 
